@@ -43,8 +43,22 @@ func TestDeadlockAndTimers(t *testing.T) {
 		var a, b Mutex
 		var wg WaitGroup
 		wg.Add(2)
-		Go("t1", func() { a.Lock(); Sleep(time.Second); b.Lock(); b.Unlock(); a.Unlock(); wg.Done() })
-		Go("t2", func() { b.Lock(); Sleep(time.Second); a.Lock(); a.Unlock(); b.Unlock(); wg.Done() })
+		Go("t1", func() {
+			a.Lock()
+			Sleep(time.Second)
+			b.Lock()
+			b.Unlock()
+			a.Unlock()
+			wg.Done()
+		})
+		Go("t2", func() {
+			b.Lock()
+			Sleep(time.Second)
+			a.Lock()
+			a.Unlock()
+			b.Unlock()
+			wg.Done()
+		})
 		wg.Wait()
 	})
 	if r.Deadlock == "" {
